@@ -12,9 +12,9 @@ WIP["C07"] = dict(
     level_text="Part 1: generated histories of block opens on any committed block (siblings, forks, late block hash of a generator), transaction begin / commit / discard, get / insert / delete of all seven cacheable entity types (reflectively generated values incl. versioned wrappers and magic blocks) and two non-cacheable controls, deep scrambling of every object a read returned or an insert was given, block commit / abandon and REST-style query reads run on the real cstate.StateContext over the real MPT and the real StateCache -> BlockCache -> TransactionCache stack wired as chain.updateState, block.ComputeState, the generator and the REST handlers wire them; every read through the stack must have the outcome, the canonical encoding and the object structure of a read from a trie opened with an empty cache on the same root. Part 2: generated transaction histories (settings updates, add_validator calls that write partitions and then fail, node registration, fee payments, garbage, nonce games) run through Chain.UpdateState on the booted chain; after every applied, failed or rejected transaction every key held anywhere in the cache stack is read as the next transaction would read it, compared with the uncached block state, scrambled and read again.",
     level_note="Exploration of histories: finds a divergence in the explored histories, proves nothing about others. One key holds one entity type; one transaction open at a time (the chain's state mutex); cache capacity effects (200 blocks per key, 2000 block hashes) are outside the generated sizes. Two classes are excluded by construction while they are listed as open findings: reads that can reach the global cache while another branch holds an entry for the key (stale-value-after-ancestor-walk; part 2 then runs a single line of blocks without REST-style reads) and magic-block pools with nodes inside GlobalNode (node-pool-lost-in-cached-copy); a fixed probe per run reports whether each still reproduces.",
     parts=[
-        dict(pkg=_CCHK, run="^TestC07_CacheVsTrie$", quick=3000, thorough=320000, steps=60, steps_thorough=100, floor=50,
+        dict(pkg=_CCHK, run="^TestC07_CacheVsTrie$", quick=3000, thorough=160000, steps=60, steps_thorough=80, floor=50,
              timeout_quick=600, timeout_thorough=2400, env=_C07_KNOWN),
-        dict(pkg=_CCHK, run="^TestC07_ChainPath$", quick=400, thorough=32000, floor=20,
+        dict(pkg=_CCHK, run="^TestC07_ChainPath$", quick=400, thorough=16000, floor=20,
              timeout_quick=900, timeout_thorough=2400, env=_C07_KNOWN),
     ],
     assumptions=[
